@@ -158,6 +158,13 @@ fn concretise(rng: &mut Rng, weid: bool, wsid: bool, wtms: bool, ueh: bool, msbf
         weid, wsid, wtms, ueh, msbf, vers, ecu_sto: rand_id(rng), ecu_std: rand_id(rng), sid: rand_u32(rng), tmsp: rand_u32(rng),
         ext, mcnt: rng.next_u64() as u8, secs: rand_u32(rng), micros, payload,
     };
+    // one message in eight carries a storage-header pattern INSIDE its payload (e.g. a tunnelled DLT message): a well-formed
+    // message all the same - the parser's "corrupt message" heuristic must only fire if something else than a message follows
+    if o.payload.len() >= 4 && rng.chance(1, 8) {
+        let at = rng.below(o.payload.len() as u64 - 3) as usize;
+        o.payload[at..at + 4].copy_from_slice(b"DLT\x01");
+        return o;
+    }
     // the complete message must stay pattern-free after its own storage header
     let mut all = o.bytes();
     let before = all.clone();
